@@ -95,7 +95,7 @@ def gen(rng, tier, n):
             doc = Obj([("multipleOf", Num(rng.choice(["3", "7", "10", "1.5", "6", "1000"])))])
         elif r < 0.2 and isinstance(j, Num) and j.frac().denominator == 1 and abs(j.frac()) >= 2**53:
             doc = Obj([(rng.choice(["minimum", "exclusiveMinimum", "maximum", "exclusiveMaximum"]),
-                        Num(rng.choice(["0", "-1", "9223372036854775807", "9223372036854775808", "1e19"])))])
+                        Num(rng.choice(["0", "-1", "9223372036854774784", "9223372036854775808", "1e19"])))])
         elif r < 0.84:
             doc = schema_for(rng, j)
         else:
